@@ -45,7 +45,7 @@ ASSUMPTIONS = [
 ]
 
 VARIANTS = {"g": render.VARIANTS["g"], "d": {}}
-PROFILE = {"p_local_classes": 0.4, "allow_regex_nokeep_single": False, "allow_raw_callbacks": False, "p_default": 0.4, "p_instance_proto": 0.6,
+PROFILE = {"p_describe": 0.15, "p_local_classes": 0.4, "allow_regex_nokeep_single": False, "allow_raw_callbacks": False, "p_default": 0.4, "p_instance_proto": 0.6,
            "p_rep": 0.28, "p_opt": 0.12, "p_move": 0.08, "p_backward_at": 0.0,
            "kinds": {"int": 30, "data": 22, "bits": 8, "ref": 24, "sel": 12, "em": 2}}
 
@@ -158,6 +158,9 @@ def pick_leaf(fam, pv, rng, depth=0):
     for f in decl["fields"]:
         if f["t"] in ("int", "data", "bits") and "rep" not in f and "opt" not in f and "describe" not in f:
             cands.append(([f["name"]], f))
+            if any(g.get("describe", {}).get("of") == f["name"] for g in decl["fields"]):
+                cands.append(([f["name"]], f))      # tracked fields of automatic fields are picked more often
+                cands.append(([f["name"]], f))
         elif f["t"] == "ref" and "rep" not in f and "opt" not in f and isinstance(pv.vals.get(f["name"]), model.PV) and depth < 2:
             sub = pick_leaf(fam, pv.vals[f["name"]], rng, depth + 1)
             if sub:
@@ -178,6 +181,25 @@ def new_leaf_value(f, rng):
     if f["mode"] == "const":
         return bytes(rng.choice(b"mnopq") for _ in range(f["size"]))
     return bytes(rng.choice(b"mnopq") for _ in range(rng.randint(0, 3)))
+
+
+def refresh_auto(fam, pv):
+    """Described (AutoLength) fields are never assigned in these histories: they read as the current length of
+    their tracked field, at every depth."""
+    decl = fam["decls"][pv.decl]
+    for f in decl["fields"]:
+        v = pv.vals.get(f["name"])
+        for x in (v if isinstance(v, list) else [v]):
+            if isinstance(x, model.PV):
+                refresh_auto(fam, x)
+    for f in decl["fields"]:
+        if "describe" in f:
+            pv.vals[f["name"]] = len(pv.vals[f["describe"]["of"]])
+
+
+def strip_described_keys(fam, declname, kw):
+    decl = fam["decls"][declname]
+    return {k: v for k, v in kw.items() if not any(f["name"] == k and "describe" in f for f in decl["fields"])}
 
 
 def history_part(run, bench, rng, nops):
@@ -205,9 +227,11 @@ def history_part(run, bench, rng, nops):
                 if donors and rng.random() < 0.5:
                     raw, pv = rng.choice(donors)
                     keys = [k for k in pv.vals if rng.random() < 0.5]
-                    kw = {k: model.copy_val(pv.vals[k]) for k in keys}
+                    kw = strip_described_keys(fam, root, {k: model.copy_val(pv.vals[k]) for k in keys})
+                    keys = sorted(kw)
                     shadow = model.defaults(fam, root, overrides={k: model.copy_val(x) for k, x in kw.items()})
-                    pkt = cls(**{k: monitors._real_val(bench.loaded, v, x, "kwargs", None) for k, x in kw.items()})
+                    pkt = cls(**{k: monitors._real_val(bench.loaded, v, model.strip_described(fam, x), "kwargs", None) for k, x in kw.items()})
+                    refresh_auto(fam, shadow)
                     history.append(["construct", v, sorted(keys)])
                 else:
                     pkt = cls()
@@ -245,6 +269,7 @@ def history_part(run, bench, rng, nops):
                     sh = sh.vals[name]
                 setattr(obj, path[-1], val)
                 sh.vals[path[-1]] = val
+                refresh_auto(fam, lv.pv)
                 history.append([op, acting, path, val if not isinstance(val, bytes) else b2j(val)])
                 run.count("ops_set_nested" if len(path) > 1 else "ops_set_leaf")
             elif op == "list_append":
